@@ -312,9 +312,10 @@ func c02BadSizes(c *ev.Ctx) {
 	r := c.Rand("c02size")
 	type cfg struct {
 		negotiate uint32 // 0 = before negotiation (limit 4 MiB)
+		refused   uint32 // msize of a refused Tversion sent afterwards (0 = none): it changes nothing
 	}
 	idx := 0
-	for _, cf := range []cfg{{0}, {4096}, {1 << 16}, {mib4}} {
+	for _, cf := range []cfg{{0, 0}, {4096, 0}, {1 << 16, 0}, {mib4, 0}, {8192, 16384}, {8192, 64}, {0, 4096}, {1 << 16, 1 << 20}, {1 << 16, mib4}} {
 		limit := cf.negotiate
 		if limit == 0 {
 			limit = mib4
@@ -342,7 +343,16 @@ func c02BadSizes(c *ev.Ctx) {
 						continue
 					}
 				}
-				c.Begin(fmt.Sprintf("C02 bad size=%d type=%d negotiate=%d", sz, t, cf.negotiate))
+				if cf.refused != 0 {
+					// a Tversion the server refuses ("unknown", msize 0) leaves
+					// the limit in force where it was
+					if rv := p.Version(cf.refused, "9P2000.u"); !rv.OK || rv.Msg.Type != wire.Rversion || rv.Msg.F[1].(string) != "unknown" {
+						c.Inconclusive(fmt.Sprintf("C02 refused version: %v", rv.Msg))
+						p.Close()
+						continue
+					}
+				}
+				c.Begin(fmt.Sprintf("C02 bad size=%d type=%d negotiate=%d refused=%d", sz, t, cf.negotiate, cf.refused))
 				callsBefore := ncalls()
 				nrep0 := p.NReplies()
 				p.Flush()
@@ -361,8 +371,8 @@ func c02BadSizes(c *ev.Ctx) {
 					}
 					p.SendRaw(body)
 				}
-				det := map[string]any{"size_field": sz, "type": t, "limit": limit, "negotiated": cf.negotiate}
-				c.Case(fmt.Sprintf("size:%s:%d:%d", sizeClass(sz, limit), t, cf.negotiate), true)
+				det := map[string]any{"size_field": sz, "type": t, "limit": limit, "negotiated": cf.negotiate, "refused_tversion_msize": cf.refused}
+				c.Case(fmt.Sprintf("size:%s:%d:%d:%d", sizeClass(sz, limit), t, cf.negotiate, cf.refused), true)
 				if bad {
 					select { // plain wait first: quiescence probes allocate
 					case <-p.HandleDone:
@@ -392,7 +402,7 @@ func c02BadSizes(c *ev.Ctx) {
 						c.Violation("C02:srv:allocation-on-bad-size-field:"+sizeClass(sz, limit), det)
 					}
 					c.Max("max_alloc_delta_bad_size", int64(a1-a0))
-					if n := p.NReplies(); (cf.negotiate != 0 && n > 1) || (cf.negotiate == 0 && n > 0) {
+					if n := p.NReplies(); n > nrep0 {
 						c.Violation("C02:srv:reply-sent-for-bad-size-frame", det)
 					}
 					if ncalls() != callsBefore {
